@@ -19,6 +19,23 @@ def do_replay(path):
     prop = body["property"]
     mod = load_module(prop)
     case = common.unjson(body["case"])
+    if str(body.get("cls", "")).endswith(":population-changed"):
+        # the record says that the SET of inputs failing with a known finding
+        # changed; the input named in it is replayed, the count itself is
+        # re-established by running the check
+        ex = case.get("an_input_failing_now")
+        v = None
+        if ex is not None:
+            with common.hang_guard():
+                v = mod.replay(body["check"], common.unjson(ex))
+        print("replay %s: known-finding population of class %s in part %s: "
+              "recorded %s, then %s; the named input %s on this tree; run "
+              "./check %s to recount" % (
+                  path, case.get("class"), case.get("part"),
+                  case.get("failing_inputs_recorded"),
+                  case.get("failing_inputs_now"),
+                  "fails" if v else "does not fail", prop))
+        return 1 if v else 0
     if body.get("replay_mode") == "shard":
         v = common.replay_shard(common.unjson(body["shard"]), body["check"],
                                 body["cls"], case, in_process=True)
